@@ -23,6 +23,8 @@ pub struct Balances {
 
 impl Balances {
     fn create_writer(cap: usize, path: PathBuf) -> Result<BufWriter<File>> {
+        #[cfg(rbp_verif)]
+        crate::verif::ev("tmp_create", &format!("\"file\":{}", crate::verif::js(path.file_name().unwrap().to_str().unwrap())));
         Ok(BufWriter::with_capacity(cap, File::create(path)?))
     }
 }
@@ -99,6 +101,8 @@ impl Callback for Balances {
                 .write_all(format!("{};{}\n", address, balance).as_bytes())?;
         }
 
+        #[cfg(rbp_verif)]
+        crate::verif::ev("rename", &format!("\"file\":\"balances.csv.tmp\",\"to\":\"balances-{}-{}.csv\",\"buffered\":{}", self.start_height, self.end_height, self.writer.buffer().len()));
         fs::rename(
             self.dump_folder.as_path().join("balances.csv.tmp"),
             self.dump_folder.as_path().join(format!(
@@ -107,6 +111,8 @@ impl Callback for Balances {
             )),
         )
         .expect("Unable to rename tmp file!");
+        #[cfg(rbp_verif)]
+        crate::verif::ev("renamed", "\"file\":\"balances.csv.tmp\"");
 
         info!(target: "callback", "Done.\nDumped {} addresses.", balances.len());
         Ok(())
